@@ -9,6 +9,7 @@ import (
 	"context"
 	"fmt"
 	"math/big"
+	"regexp"
 	"strings"
 	"unicode/utf8"
 
@@ -191,11 +192,18 @@ func (v val) rat() *big.Rat {
 	return r
 }
 
+var decimalText = regexp.MustCompile(`^[+-]?\d*\.\d+(e[+-]?\d+)?$|^[+-]?\d+e[+-]?\d+$`)
+
 // cleanInt: surrounding blanks and one leading '+' are tolerated (as MySQL does); the rest must be [-]digits.
 func cleanInt(x string) (*big.Int, bool) {
 	t := strings.Trim(x, " \t")
-	t = strings.TrimPrefix(t, "+")
-	if t == "" || strings.HasPrefix(t, "+") || strings.ContainsAny(t, " \t\n_") {
+	if strings.HasPrefix(t, "+") {
+		t = t[1:]
+		if t == "" || t[0] < '0' || t[0] > '9' {
+			return nil, false
+		}
+	}
+	if t == "" || strings.ContainsAny(t, " \t\n_") {
 		return nil, false
 	}
 	for i := 0; i < len(t); i++ {
@@ -366,7 +374,7 @@ func gen(r *lib.RNG) caseT {
 		z := genIntFor(r, bi("-100000000000000000000"), bi("100000000000000000000"), t)
 		switch r.Intn(8) {
 		case 0:
-			c.Text = z.String() + lib.Pick(r, []string{"abc", "x", " 1", "-", ".5", "e3", "\n"})
+			c.Text = z.String() + lib.Pick(r, []string{"abc", "x", " 1", "-", ".5", "e3"})
 		case 1:
 			c.Text = lib.Pick(r, []string{"abc", "", "-", "x1", "+", " ", "\t-\t", "+-5", "--5", "- 5"})
 		case 2:
@@ -702,13 +710,25 @@ func runInsert(c *lib.Ctx, cs caseT, it *intType, p, s int64, src val, fail func
 		if it == nil || cs.Mode != "insert" {
 			return
 		}
+		if decimalText.MatchString(strings.Trim(cs.Text, " \t")) {
+			c.Count("numstr:decimal-text-unjudged")
+			return
+		}
 		z, clean := cleanInt(cs.Text)
 		rd := sess.Query("SELECT c FROM " + name)
 		stored := r.Err == nil && rd.Err == nil && len(rd.Rows) == 1
 		switch {
 		case clean && z.Cmp(it.Min) >= 0 && z.Cmp(it.Max) <= 0:
 			if !stored || observe(rd.Rows[0][0]).Z == nil || observe(rd.Rows[0][0]).Z.Cmp(z) != 0 {
-				fail(id, "insert/"+it.Name+"/string/representable-not-stored-exactly", fmt.Sprintf("%s: err %v", q, r.Err))
+				sig := "insert/" + it.Name + "/string/representable-not-stored-exactly"
+				if it.Name == "u64" && strings.HasPrefix(strings.Trim(cs.Text, " \t"), "+") {
+					sig = "insert/u64/string/plus-prefixed-not-stored-exactly"
+				}
+				got := "nothing"
+				if stored {
+					got = eng.Val(rd.Rows[0][0])
+				}
+				fail(id, sig, fmt.Sprintf("%s: stored %s, err %v", q, got, r.Err))
 			}
 		case stored:
 			tr := strings.Trim(cs.Text, " \t\n\r")
@@ -814,7 +834,7 @@ func main() {
 			{"varchar(3)", "string", "日本語", "convert", nil}, {"varchar(3)", "string", "abcd", "convert", nil}, {"varbinary(3)", "string", "é1", "convert", nil},
 			{"i32", "string", "", "insert", nil}, {"i32", "string", "-", "insert", nil}, {"u8", "string", "12abc", "insert", nil}, {"u8", "string", "300", "insert", nil},
 			{"i8", "string", "12", "insert", nil}, {"i64", "string", "-9223372036854775809", "insert", nil}, {"i64", "string", "9223372036854775808", "insert", nil},
-			{"u64", "string", "18446744073709551616", "insert", nil}, {"i64", "string", "9223372036854775808", "convert", nil}, {"i32", "string", "", "convert", nil},
+			{"u64", "string", "18446744073709551616", "insert", nil}, {"u64", "string", "+9007199254740993", "insert", nil}, {"u64", "string", "+18446744073709551615", "insert", nil}, {"i64", "string", "9223372036854775808", "convert", nil}, {"i32", "string", "", "convert", nil},
 			{"u24", "decimal", "-18446744073709551617.5", "convert", nil},
 			{"i8", "string", "12abc", "convert", nil}, {"i8", "string", "127", "convert", nil}, {"i8", "string", "128", "convert", nil}, {"u8", "string", "-1", "convert", nil},
 		}
